@@ -204,3 +204,73 @@ package control
 //@   modifies *
 //@   at call rememberDnsKnowledge#1 assert a1 == baseKey && a2 == originalDeadline
 //@   at call prepackResponseBeforeStore#1 assert a1 == fqdn && a2 == dnsTyp
+
+// C08 (scope of a cached answer): the upstream scope names the resolver completely - for as-is routing
+// the full address AND port the client addressed; for an upstream its full string; reject and index
+// fallbacks as documented - and the response cache key is the base key, '|', the scope.
+//@ func (*DnsController).responseCacheScope
+//@   pure
+//@   nonilcheck
+//@   ensures upstreamIndex == consts.DnsRequestOutboundIndex_AsIs && req != nil && req.realDst.IsValid() ==> result == cat("asis@", req.realDst.String())
+//@   ensures upstreamIndex == consts.DnsRequestOutboundIndex_AsIs && (req == nil || !req.realDst.IsValid()) ==> result == "asis"
+//@   ensures upstreamIndex == consts.DnsRequestOutboundIndex_Reject ==> result == "reject"
+//@   ensures upstreamIndex != consts.DnsRequestOutboundIndex_AsIs && upstreamIndex != consts.DnsRequestOutboundIndex_Reject && upstream != nil ==> result == cat("upstream@", old(upstream.String()))
+//@   ensures upstreamIndex != consts.DnsRequestOutboundIndex_AsIs && upstreamIndex != consts.DnsRequestOutboundIndex_Reject && upstream == nil && upstreamIndex != 0 ==> result == cat("upstream-index@", strconv.Itoa(upstreamIndex))
+//@   ensures upstreamIndex == 0 && upstream == nil && consts.DnsRequestOutboundIndex_AsIs != 0 && consts.DnsRequestOutboundIndex_Reject != 0 ==> result == ""
+
+//@ func (*DnsController).responseCacheKey
+//@   nonilcheck
+//@   ensures old(c.responseCacheScope(req, upstreamIndex, upstream)) == "" ==> result == baseKey
+//@   ensures old(c.responseCacheScope(req, upstreamIndex, upstream)) != "" ==> result == cat(cat(baseKey, "|"), old(c.responseCacheScope(req, upstreamIndex, upstream)))
+
+// C08 (reload clone): the clone carries the same deadline, the same packed bytes and the TTL / creation
+// time they were built with, so the entry invariant wfPacked survives a reload hand-over.
+//@ func (*DnsCache).CloneForReload
+//@   requires wfPacked(c)
+//@   ensures result != nil && fresh(result)
+//@   ensures result.Deadline == old(c.Deadline) && result.OriginalDeadline == old(c.OriginalDeadline)
+//@   ensures dl(result) == ((old(dl(c)) == 0 && !old(c.Deadline.IsZero())) ? old(c.Deadline.UnixNano()) : old(dl(c)))
+//@   ensures old(hasPacked(c)) ==> hasPacked(result) && packedOf(result) == old(packedOf(c)) && result.packedResponseTTL.Load() == old(c.packedResponseTTL.Load()) && result.packedResponseCreatedAt.Load() == old(c.packedResponseCreatedAt.Load())
+//@   ensures !old(hasPacked(c)) ==> !hasPacked(result)
+//@   ensures !result.refreshing.Load()
+//@   ensures old(dl(c)) != 0 ==> wfPacked(result)
+
+// C08 (LRU eviction): binary min-heap over lastAccess.
+//   heapAt(e, k, n): node k is not larger than its children inside the first n slots
+//@ macro la(e []cacheEntry, k int) = e[k].lastAccess
+//@ macro heapAt(e []cacheEntry, k int, n int) = (2*k+1 < n ==> la(e, k) <= la(e, 2*k+1)) && (2*k+2 < n ==> la(e, k) <= la(e, 2*k+2))
+
+// sift-down: if every node from i on (except i itself) is heap-ordered inside the first n slots, then
+// afterwards every node from i on is.
+//@ func heapifyMin
+//@   requires 0 <= i && i <= n && 0 <= n && n <= len(entries)
+//@   requires forall k int {la(entries, k)} :: i < k && k < n ==> heapAt(entries, k, n)
+//@   modifies elems(entries)
+//@   ensures forall k int {la(entries, k)} :: old(i) <= k && k < n ==> heapAt(entries, k, n)
+//@   ensures forall k int {la(entries, k)} :: 0 <= k && k < len(entries) && (k < old(i) || k >= n) ==> la(entries, k) == old(la(entries, k))
+//@   loop 1
+//@     invariant old(i) <= i && 0 <= i && i <= n
+//@     invariant forall k int {la(entries, k)} :: old(i) <= k && k < n && k != i ==> heapAt(entries, k, n)
+//@     invariant i > old(i) ==> (2*i+1 < n ==> la(entries, (i-1)/2) <= la(entries, 2*i+1)) && (2*i+2 < n ==> la(entries, (i-1)/2) <= la(entries, 2*i+2))
+//@     invariant forall k int {la(entries, k)} :: 0 <= k && k < len(entries) && (k < old(i) || k >= n) ==> la(entries, k) == old(la(entries, k))
+
+//@ func buildMinHeap
+//@   modifies elems(entries)
+//@   ensures forall k int {la(entries, k)} :: 0 <= k && k < len(entries) ==> heapAt(entries, k, len(entries))
+//@   loop 1
+//@     invariant -1 <= i && i < len(entries) && n == len(entries)
+//@     invariant forall k int {la(entries, k)} :: i < k && k < n ==> heapAt(entries, k, n)
+
+// heap selection of the numToEvict least recently used entries: the array is a heap before the first
+// extraction, and after each extraction (root swapped to the end, sift-down from the root over the
+// shrunken prefix) the remaining prefix is a heap again.
+//@ func (*DnsController).currentOptimisticCacheConfig
+//@   pure
+//@   ensures c != nil ==> maxCacheSize == c.maxCacheSize.Load()
+//@ func (*DnsController).evictLRUIfFull
+//@   nonilcheck
+//@   modifies *
+//@   requires c.maxCacheSize.Load() > 0
+//@   loop 1
+//@     invariant 0 <= $iter && $iter < numToEvict && numToEvict < len(entries)
+//@     invariant forall k int {la(entries, k)} :: 0 <= k && k < len(entries) - $iter ==> heapAt(entries, k, len(entries) - $iter)
